@@ -426,8 +426,9 @@ func c03hdr(p *Program, r *Report, rule string) {
 // decidedLike finds a decision whose key matches "(<pattern>)" and returns its value.
 func decidedLike(pa *Path, pattern string) (bool, bool) {
 	re := pat("(" + pattern + ")")
+	re2 := pat(pattern)
 	for _, d := range pa.Decisions {
-		if re.MatchString(d.Key) {
+		if re.MatchString(d.Key) || re2.MatchString(d.Key) {
 			return d.Val, true
 		}
 	}
